@@ -2,10 +2,13 @@
 Line protocol of the geometric display list of C17 (driver_c17).
 
   paintgeo <attrs of the page> <canvas bg> (box …) (entry …)
+  paintgeodoc <attrs of the page> (rootHtml (isBody …)) (box …) (entry …)     the same on the style-level
+                                export: `LaidOut.drawDocument` (canvas background derived by the model)
   entry ::= (B id geo clip)     geometry of a box and the `background-clip` of its last layer
                                 (clip ::= border-box | padding-box | content-box), geo as in Drive/Rounded
           | (A id x y w h)      painting area given as such (the page's bleed area)
-          | (C id x y w h)      painting area of the canvas background
+          | (C id x y w h)      painting area of the canvas background (only used when the page has no B entry:
+                                the model takes the page's border box, as `layout_backgrounds` does)
           | (T id x y size)     text origin (`position_x`, `position_y + baseline`) and font size
   → one token per painted item:
       kind:colour:alphas:transforms:clip|clip|…:geometry
@@ -16,6 +19,7 @@ Numbers are decimals with at most six places.
 -/
 import WpModel.Model.Wire
 import WpModel.Model.PaintOrder
+import WpModel.Model.LaidOut
 import WpModel.Model.RoundedBox
 import WpModel.Drive.Stacking
 import WpModel.Drive.Rounded
@@ -73,7 +77,10 @@ def rect (r : Rat × Rat × Rat × Rat) : String := showOp (.re r.1 r.2.1 r.2.2.
 
 def areaOf (t : Table) (role : Role) (id : Nat) : String :=
   if role == .canvas then
-    match t.canvas.lookup id with | some r => rect r | none => "*"
+    -- layout_backgrounds: `painting_area = box_rectangle(page, 'border-box')` for every layer of the canvas
+    match t.boxes.lookup id with
+    | some (g, _) => rect (boxRectangle g .borderBox)
+    | none => match t.canvas.lookup id with | some r => rect r | none => "*"
   else if role == .bg then
     match t.areas.lookup id with
     | some r => rect r
@@ -137,6 +144,17 @@ def handle (cmd : String) (args : List Sx) : Option String :=
     if (fromPage page kids).2 then pure "err:AssertionError" else
     let sides := (page.id, page.borderSides) :: kids.flatMap sidesOf
     match runItems (drawPage page canvas kids) with
+    | .error e => pure (Wp.Drive.Stacking.errClass e)
+    | .ok items => pure (" ".intercalate (items.filterMap (showItem t sides)))
+  | "paintgeodoc", [page, .list [rootHtml, .list flags], .list kids, .list entries] => do
+    let page ← Wp.Drive.Stacking.attrs? page
+    let rootHtml ← rootHtml.bool?
+    let flags ← allSome Sx.bool? flags
+    let kids ← allSome Wp.Drive.Stacking.box? kids
+    let t ← table? entries
+    if (fromPage page kids).2 then pure "err:AssertionError" else
+    let sides := (page.id, page.borderSides) :: kids.flatMap sidesOf
+    match runItems (drawDocument page rootHtml flags kids) with
     | .error e => pure (Wp.Drive.Stacking.errClass e)
     | .ok items => pure (" ".intercalate (items.filterMap (showItem t sides)))
   | "dec", [q] => q.rat?.map showDec
